@@ -6,6 +6,7 @@
  */
 
 #include "SM/DynamicRFKickMap.hpp"
+#include "VerifHooks.hpp"
 
 #include <cmath>
 
@@ -37,6 +38,17 @@ vfps::DynamicRFKickMap::DynamicRFKickMap(std::shared_ptr<PhaseSpace> in
   , _dist(std::normal_distribution<meshaxis_t>(0, 1))
   , _next_modulation(__calcModulation(steps))
 {
+    #ifdef INOVESA_VERIF
+    {
+        unsigned long verif_seed;
+        if (verif::prng_seed(verif_seed)) {
+            // redo the precomputed modulation with a reproducible generator
+            _prng.seed(verif_seed);
+            _dist.reset();
+            _next_modulation = __calcModulation(steps);
+        }
+    }
+    #endif // INOVESA_VERIF
 }
 
 vfps::DynamicRFKickMap::DynamicRFKickMap( std::shared_ptr<PhaseSpace> in
@@ -65,6 +77,17 @@ vfps::DynamicRFKickMap::DynamicRFKickMap( std::shared_ptr<PhaseSpace> in
   , _dist(std::normal_distribution<meshaxis_t>(0, 1))
   , _next_modulation(__calcModulation(steps))
 {
+    #ifdef INOVESA_VERIF
+    {
+        unsigned long verif_seed;
+        if (verif::prng_seed(verif_seed)) {
+            // redo the precomputed modulation with a reproducible generator
+            _prng.seed(verif_seed);
+            _dist.reset();
+            _next_modulation = __calcModulation(steps);
+        }
+    }
+    #endif // INOVESA_VERIF
 }
 
 vfps::DynamicRFKickMap::~DynamicRFKickMap() noexcept
